@@ -41,10 +41,21 @@ def _int_boundaries(lo: int, hi: int) -> List[int]:
     return sorted(c for c in cands if lo <= c <= hi)
 
 
+def _zigzag_boundaries(lo: int, hi: int) -> List[int]:
+    """sint32 / sint64: the values whose zig-zag form sits at a 7k-bit boundary (-64, 64, -8192, ...): where the
+    encoded length changes for these two types."""
+    cands = set()
+    for k in range(1, 10):
+        for d in (-2, -1, 0, 1):
+            z = (1 << (7 * k)) + d
+            cands.add((z >> 1) ^ -(z & 1))
+    return sorted(c for c in cands if lo <= c <= hi)
+
+
 def int_strategy(t: str):
     lo, hi = INT_RANGES[t]
     parts = [
-        st.sampled_from(_int_boundaries(lo, hi)),
+        st.sampled_from(_int_boundaries(lo, hi) + (_zigzag_boundaries(lo, hi) * 2 if t.startswith("sint") else [])),
         st.integers(lo, hi),
         st.integers(max(lo, -300), min(hi, 300)),
         # the extreme quarters of the range, uniformly (Hypothesis's own integers() favours small magnitudes): values
@@ -165,7 +176,11 @@ class TreeStrategies:
 
     def field(self, fi: FI, depth: int):
         if fi.card == "repeated":
-            return st.lists(self.single(fi, depth), max_size=self.max_items)
+            short = st.lists(self.single(fi, depth), max_size=self.max_items)
+            if fi.type == "message" or self.max_items < 3:
+                return short
+            # now and then a long list of scalars (counts around 64 / 128: buffer-size and bulk-path thresholds)
+            return st.one_of(*([short] * 14), st.lists(self.single(fi, depth), min_size=60, max_size=135))
         if fi.card == "map":
             return st.lists(
                 st.tuples(self.single(fi.key, depth), self.single(fi.val, depth)).map(list),
